@@ -35,6 +35,7 @@ func runC16(w *World, r *Report) {
 	hrGzipWholeBody(w, r, "R2")
 	hrObfuscationFlagAlwaysRead(w, r, "R3")
 	hrQueryParamKey(w, r, "R3")
+	hrObfuscationLookups(w, r, "R3")
 	hrHeaderExclusionLists(w, r, "R3")
 	hrDecompressFallsBackToRaw(w, r, "R2")
 	hrHARPluginHasher(w, r, "R1")
